@@ -4,6 +4,7 @@ import fcntl
 import hashlib
 import json
 import os
+import shutil
 import re
 import subprocess
 import sys
@@ -149,7 +150,12 @@ def coq_eval(name, preamble, bodies, timeout=600, jobs=8):
     """Evaluate Gallina terms inside Coq.  bodies: list of strings, each a Gallina term of type
     `list Z` (or anything printable on one logical line); they are split over `jobs` files that
     are compiled in parallel.  Returns the list of printed values (strings, whitespace-normalised)."""
-    d = os.path.join(WORK, 'cases_' + name)
+    # one scratch directory per (name, process): quick and thorough commands of one property may run at the same time
+    for other in os.listdir(WORK):
+        stem, _, pid = other.rpartition('.')
+        if (stem.startswith('cases_') and pid.isdigit() and not os.path.exists('/proc/' + pid)) or other == 'cases_' + name:
+            shutil.rmtree(os.path.join(WORK, other), ignore_errors=True)
+    d = os.path.join(WORK, f'cases_{name}.{os.getpid()}')
     os.makedirs(d, exist_ok=True)
     for f in os.listdir(d):
         os.remove(os.path.join(d, f))
